@@ -126,6 +126,7 @@ def gen_case(g, tier, idx):
     seq = ["kfcv", str(n), str(m), str(ncalls)]
     singles = []
     varied = handed = 0
+    wmodes = {}
     for c in range(ncalls):
         if c > 0 and r.random() < 0.6:
             H2, R2 = gen_HR(g, style, n, m)        # same shape, new content
@@ -141,9 +142,13 @@ def gen_case(g, tier, idx):
         hand = r.choice([0, 0, 0, 1])              # object move-constructed into a new one before the call
         handed += hand
         hist = ([str(r.choice([0, 1])) for _ in range(r.randint(0, 3))] + ["0"]) if r.random() < 0.4 else []
-        seq += [str(hand), str(len(hist))] + hist + head + toks[:m] + [str(nlik), str(k)] + toks[m:]
+        # weights of the belief passed in: default / exact zeros / un-normalised / tiny / negative (the
+        # update of a component may not depend on its weight)
+        wmode = r.choice([0, 0, 1, 2, 3, 4, 5, 6, 7]) if k > 1 else r.choice([0, 0, 3, 4])
+        wmodes[wmode] = wmodes.get(wmode, 0) + 1
+        seq += [str(hand), str(len(hist))] + hist + head + toks[:m] + [str(nlik), str(wmode), str(k)] + toks[m:]
         singles.append(" ".join(["kfc", str(n), str(m), str(k)] + head + toks))
-    return " ".join(seq), singles, {"style": style, "n": n, "m": m, "calls": ncalls, "model_changes": varied, "hand_overs": handed}
+    return " ".join(seq), singles, {"style": style, "n": n, "m": m, "calls": ncalls, "model_changes": varied, "hand_overs": handed, "wmodes": wmodes}
 
 
 def split_seq_output(hout, ncalls):
@@ -321,7 +326,7 @@ def replay_case(path):
             ns = int(t[p]); p += 1 + ns              # skip history
             head = t[p:p + m * n + m * m]; p += m * n + m * m
             y = t[p:p + m]; p += m
-            p += 1                                   # nlik
+            p += 2                                   # nlik, weight mode of the belief passed in
             k = int(t[p]); p += 1
             ln = n * k + n * n * k + k
             singles.append(" ".join(["kfc", str(n), str(m), str(k)] + head + y + t[p:p + ln])); p += ln
@@ -393,13 +398,17 @@ def run(ctx):
         ctx.violation("correspondence:" + key2, "model and implementation disagree (%d cases), no property predicate failed: %s" % (len(corr_bad), what),
                       {"harness": "h_kf", "correspondence": "kfCorrect vs KFCorrection::correctStep", "input_line": line, "observed": h[:2000]}, no_input=True)
     nontrivial = sum(1 for sl in distinct if int(sl.split()[1]) * int(sl.split()[2]) > 1 or int(sl.split()[3]) > 1)
+    wm = {}
+    for c_ in cases:
+        for k_, v_ in (c_[2].get("wmodes") or {}).items():
+            wm[str(k_)] = wm.get(str(k_), 0) + v_
     ctx.coverage.update({
         "evaluations": ncalls_total, "distinct_nontrivial": nontrivial,
         "rule": "KFCorrection objects over a time-varying measurement model (H, R of the same shape may change between calls) used for 1..3 successive correct() calls each (new measurement, new component count per call), likelihood queried 1..3 times per call; near-duplicate consecutive components; the (n,m) grid 1..6 x 1..6 "
                 "first, then random n,m up to %d; k in {1,2,3,4,6}; SPD with prescribed spectrum, cond<=1e6; H of any rank, identity/diagonal/symmetric/zero H, "
                 "zero innovation; non-trivial = more than one scalar dimension or more than one component; distinct = distinct single-call inputs" % (6 if ctx.quick() else 8),
         "samples": [cases[0][0][:400], cases[-1][0][:400]],
-        "style_histogram": hist, "numeric": stats, "objects": len(cases), "nm_pairs_covered": len(dims),
+        "input_weight_modes (0 default, 1 first zero, 2 last zero, 3 all zero, 4 un-normalised, 5 tiny, 6 one negative, 7 one-hot)": wm, "style_histogram": hist, "numeric": stats, "objects": len(cases), "nm_pairs_covered": len(dims),
         "traces_validated_against_impl": ncalls_total,
         "model_vs_impl_disagreements": len(corr_bad), "property_failures_on_impl": len(prop_bad),
         "sanitizer_crashes": len(logs),
